@@ -27,11 +27,17 @@ type FileStorage struct {
 
 const (
 	defaultLockFile = "/tmp/dc4bc_storage_lock"
+
+	// maxMessageSize is the longest line (message) a reader of the data file accepts
+	maxMessageSize = 1024 * 1024
 )
 
 func countLines(r io.Reader) uint64 {
 	var count uint64
 	fileScanner := bufio.NewScanner(r)
+	// count with the same line limit GetMessages reads with, otherwise counting
+	// stops at the first line longer than bufio.MaxScanTokenSize
+	fileScanner.Buffer(make([]byte, 0, 64*1024), maxMessageSize)
 
 	for fileScanner.Scan() {
 		count++
@@ -114,7 +120,7 @@ func (fs *FileStorage) GetMessages(offset uint64) ([]storage.Message, error) {
 	}
 	scanner := bufio.NewScanner(fs.dataFile)
 	buf := make([]byte, 0, 64*1024)
-	scanner.Buffer(buf, 1024*1024)
+	scanner.Buffer(buf, maxMessageSize)
 	for scanner.Scan() {
 		if offset > 0 {
 			offset--
